@@ -224,7 +224,7 @@ func ruleOutput(c *Ctx) {
 			nBr := 0
 			for _, table := range []string{"inputStreams", "outputStreams"} {
 				nBr++
-				e := &sengine{pkg: ipkg}
+				e := &sengine{pkg: ipkg, ctx: c}
 				e.load = func(p *spath, fr *sframe, addr iv, in *ssa.UnOp) (iv, bool) {
 					if f, x := fieldOfAddr(in.X); f != nil && isInterp(x.Type()) {
 						switch f.Name() {
@@ -283,7 +283,16 @@ func ruleOutput(c *Ctx) {
 							return true
 						}
 					}
-					return false
+					// a helper that does the closing itself: it looks the name up in the stream tables
+					touches := false
+					allInstrs(callee, func(in ssa.Instruction) {
+						if fa, ok := in.(*ssa.FieldAddr); ok {
+							if f, x := fieldOfAddr(fa); f != nil && isInterp(x.Type()) && (f.Name() == "inputStreams" || f.Name() == "outputStreams") {
+								touches = true
+							}
+						}
+					})
+					return touches
 				}
 				e.startAt(cb, entry, nil)
 				paths, bad := 0, 0
@@ -394,8 +403,16 @@ func ruleOutput(c *Ctx) {
 						})
 					case *ssa.Call:
 						cc := x.Common()
-						if cc.IsInvoke() && cc.Method.Name() == "Flush" && traceInterpField(cc.Value, 0) == "output" {
-							// reached under nothing but the "is it a flusher" type test: the test's block is unconditional
+						flushedField := ""
+						if cc.IsInvoke() && cc.Method.Name() == "Flush" {
+							flushedField = traceInterpField(cc.Value, 0)
+							if flushedField != "output" && interpFieldAliasOf(c, flushedField) == "output" {
+								flushedField = "output" // a field that only ever holds p.output seen as a flusher
+							}
+						}
+						if flushedField == "output" {
+							// reached under nothing but the "is it a flusher" test (a type test, or a nil test of the cached
+							// flusher): the test's block is unconditional
 							for _, d := range fn.Blocks {
 								if d == b || !d.Dominates(b) || !uncond(d) || len(d.Instrs) == 0 {
 									continue
@@ -403,6 +420,11 @@ func ruleOutput(c *Ctx) {
 								if iff, ok := d.Instrs[len(d.Instrs)-1].(*ssa.If); ok && d.Succs[0] == b {
 									if ex, ok := iff.Cond.(*ssa.Extract); ok {
 										if _, isTA := ex.Tuple.(*ssa.TypeAssert); isTA {
+											flushOut = true
+										}
+									}
+									if bo, ok := iff.Cond.(*ssa.BinOp); ok && bo.Op == token.NEQ && isNilConst(bo.Y) {
+										if n := interpFieldLoad(bo.X); n != "" && (n == "output" || interpFieldAliasOf(c, n) == "output") {
 											flushOut = true
 										}
 									}
@@ -1178,4 +1200,60 @@ func structParamField(v ssa.Value) (*ssa.Parameter, int) {
 		}
 	}
 	return nil, 0
+}
+
+// interpFieldAliasOf: every store into interpreter field name (outside nil/zero resets) is the value of one other
+// interpreter field, possibly seen through a type assertion or interface conversion (a flusher cached next to the
+// writer it was asserted from): that field's name, else "".
+func interpFieldAliasOf(c *Ctx, name string) string {
+	if name == "" {
+		return ""
+	}
+	key := "interpFieldAliasOf:" + name
+	if r, ok := c.memo[key].(string); ok {
+		return r
+	}
+	res, n := "", 0
+	bad := false
+	for _, fn := range c.srcFuncs("interp") {
+		allInstrs(fn, func(in ssa.Instruction) {
+			nm, val := interpFieldStore(in)
+			if nm != name || bad {
+				return
+			}
+			if isNilConst(val) {
+				return
+			}
+			v := val
+			for i := 0; i < 5; i++ {
+				switch x := v.(type) {
+				case *ssa.Extract:
+					v = x.Tuple
+					continue
+				case *ssa.TypeAssert:
+					v = x.X
+					continue
+				case *ssa.ChangeInterface:
+					v = x.X
+					continue
+				case *ssa.MakeInterface:
+					v = x.X
+					continue
+				}
+				break
+			}
+			src := interpFieldLoad(v)
+			if src == "" || (res != "" && src != res) {
+				bad = true
+				return
+			}
+			res = src
+			n++
+		})
+	}
+	if bad || n == 0 {
+		res = ""
+	}
+	c.memo[key] = res
+	return res
 }
